@@ -273,6 +273,12 @@ func (b *CFGBuilder) buildNestedFunction(node *parser.Node) error {
 	fullName := b.getFullScopeName(node.Name)
 	b.functionCFGs[fullName] = funcCFG
 
+	// Keep the CFGs of definitions nested inside this function (their names
+	// are already fully qualified by the nested builder's scope stack)
+	for nestedName, nestedCFG := range nestedBuilder.functionCFGs {
+		b.functionCFGs[nestedName] = nestedCFG
+	}
+
 	// Add function definition to current block
 	b.currentBlock.AddStatement(node)
 	return nil
